@@ -26,22 +26,40 @@ pub struct Bulk {
     pub doc: String,
     #[serde(default)]
     pub pool: usize,
-    /// size hint of the iterator given to collect: "exact" | "zero" | "half"
+    /// size hint of the iterator given to collect / extend:
+    /// "exact" (rem, Some(rem)) | "lower" (rem, None) | "zero" (0, None) | "half" (n/2, None) |
+    /// "exact_half" (n/2, Some(n/2)) | "exact_zero" (0, Some(0)) - the last two lie about the upper bound
     #[serde(default)]
     pub hint: String,
 }
 
 struct Hinted<I> {
     it: I,
-    lo: usize,
+    /// items not yet yielded
+    rem: usize,
+    n: usize,
+    hint: String,
+}
+impl<I: Iterator> Hinted<I> {
+    fn new(it: I, n: usize, hint: &str) -> Self {
+        Hinted { it, rem: n, n, hint: hint.to_string() }
+    }
 }
 impl<I: Iterator> Iterator for Hinted<I> {
     type Item = I::Item;
     fn next(&mut self) -> Option<I::Item> {
+        self.rem = self.rem.saturating_sub(1);
         self.it.next()
     }
     fn size_hint(&self) -> (usize, Option<usize>) {
-        (self.lo, None)
+        match self.hint.as_str() {
+            "zero" => (0, None),
+            "half" => (self.n / 2, None),
+            "lower" => (self.rem, None),
+            "exact_half" => (self.n / 2, Some(self.n / 2)),
+            "exact_zero" => (0, Some(0)),
+            _ => (self.rem, Some(self.rem)),
+        }
     }
 }
 
@@ -178,18 +196,13 @@ pub fn run_bulk(job: &crate::Job, raw: &str) -> Value {
             }
             "collect_map" | "collect_set" | "extend_map" | "collect_map_ref" => {
                 let n = b.entries.len();
-                let lo = match b.hint.as_str() {
-                    "zero" => 0,
-                    "half" => n / 2,
-                    _ => n,
-                };
                 let its: Vec<(Key, Val)> = b
                     .entries
                     .iter()
                     .map(|e| (Key::new(e[0] as u32, e[1] as u32), Val::new(e[2] as u64, e[3])))
                     .collect();
                 if b.how == "collect_set" {
-                    let s: HashSet<Key, H> = Hinted { it: its.into_iter().map(|(k, _)| k), lo }.collect();
+                    let s: HashSet<Key, H> = Hinted::new(its.into_iter().map(|(k, _)| k), n, &b.hint).collect();
                     let g = s.guard();
                     let mut v: Vec<(u32, u32, u64)> = s.iter(&g).map(|k| (k.id, k.tag, 1)).collect();
                     v.sort();
@@ -201,10 +214,10 @@ pub fn run_bulk(job: &crate::Job, raw: &str) -> Value {
                     let m: HashMap<Key, Val, H> = if b.how == "extend_map" {
                         let m = HashMap::with_hasher(H::default());
                         let mut mr = &m;
-                        mr.extend(Hinted { it: its.into_iter(), lo });
+                        mr.extend(Hinted::new(its.into_iter(), n, &b.hint));
                         m
                     } else {
-                        Hinted { it: its.into_iter(), lo }.collect()
+                        Hinted::new(its.into_iter(), n, &b.hint).collect()
                     };
                     let g = m.guard();
                     let mut v: Vec<(u32, u32, u64)> = m.iter(&g).map(|(k, v)| (k.id, k.tag, v.uid)).collect();
